@@ -98,6 +98,9 @@ def run(rep, scratch, tier, seed, replay=None):
     cases = []
     for i in range(ncases):
         hdr, recs = gen_case(rng, i, nrec=1500 if i == 1 else None)
+        if i == 2:
+            hdr = [b"ID", b"a", b"ab", b"abc"]
+            recs = [[b"r0", b"bc", b"z", b""], [b"r1", b"q", b"c", b"x"], [b"r2", b"b", b"", b"y"], [b"r3", b"bc", b"c", b""], [b"r4", b"", b"c", b"q"]]
         stats["records"] += len(recs)
         csvp, hdr_lines = make_csv(scratch, d, "c%d" % i, hdr, recs)
         for big in (False, True):
